@@ -74,6 +74,13 @@ PATTERNS['dead_restart'] = [
     dict(its0=rng0(0, 4, 2), its1=rng0(0, 4, 1), chk=[4]),
     dict(empty=True, chk=[]),
     dict(its0=rng0(4, 8, 2), its1=rng0(4, 8, 1), chk=[])]
+# a short re-run from an earlier checkpoint, and a gap between restarts
+PATTERNS['shorter_rerun'] = [
+    dict(its0=rng0(0, 12, 2), its1=rng0(0, 12, 1), chk=[4, 12]),
+    dict(its0=rng0(4, 8, 2), its1=rng0(4, 8, 1), chk=[8])]
+PATTERNS['gap'] = [
+    dict(its0=rng0(0, 4, 2), its1=rng0(0, 4, 1), chk=[4]),
+    dict(its0=rng0(12, 16, 2), its1=rng0(12, 16, 1), chk=[16])]
 PATTERNS['contained_names'] = [
     dict(its0=rng0(0, 8, 2), its1=rng0(0, 8, 1), chk=[8],
          extra=['K', 'Kxx', 'Kxy'], only=True),
@@ -413,7 +420,9 @@ class System:
                             else (segs[i + 1][1] - segs[i + 1][0]
                                   if len(segs[i + 1]) > 1 else 10**9))
                         for i in range(len(segs) - 1))
-                    if contiguous and exp != union and union <= exp:
+                    # (also across gaps between restarts: the docstring
+                    # promises separate entries when ranges cannot be merged)
+                    if exp != union and union <= exp:
                         viol.append((
                             f"C18:iterations:overall-extra:{sig_name}",
                             f"rl={rl}: overall expands to {sorted(exp)}, "
